@@ -213,7 +213,10 @@ func runC44(c *Ctx) {
 					continue
 				}
 				first := e.To().Instrs[0]
-				isCl := func(in ssa.Instruction) bool { cc := callOf(in); return cc != nil && methodName(cc) == "closeOnWriteErr" }
+				isCl := func(in ssa.Instruction) bool {
+					cc := callOf(in)
+					return cc != nil && methodName(cc) == "closeOnWriteErr"
+				}
 				if isCl(first) {
 					ok = true
 				} else if miss, _ := MayReachExitWithout(first, isCl); !miss {
@@ -254,7 +257,10 @@ func runC44(c *Ctx) {
 		eachInstr(rl, func(in ssa.Instruction) {
 			if d, ok := in.(*ssa.Defer); ok {
 				if f := staticCallee(&d.Call); f != nil {
-					for range callsIn(f, func(nm string, cc *ssa.CallCommon) bool { m := methodName(cc); return m == "closeKnown" || m == "Close" }) {
+					for range callsIn(f, func(nm string, cc *ssa.CallCommon) bool {
+						m := methodName(cc)
+						return m == "closeKnown" || m == "Close"
+					}) {
 						okClose = true
 					}
 					if f.Name() == "closeKnown" || f.Name() == "Close" {
